@@ -46,6 +46,9 @@ def run_bx(c, repo, workdir, tier):
         modname = "verif_bx_" + re.sub(r"[^A-Za-z0-9_]", "_", name)
         with open(attach, "a") as f:
             f.write(f"\n#[cfg(test)]\n#[path = \"{hfile}\"]\nmod {modname};\n")
+        for extra in c.get("extra_attach", []):
+            with open(os.path.join(dest, c["crate_dir"], extra["file"]), "a") as f:
+                f.write("\n" + extra["text"] + "\n")
         env = dict(os.environ)
         env.update({"CARGO_NET_OFFLINE": "true", "CARGO_TARGET_DIR": os.path.join(CACHE, "bx-target", pkg),
                     "VERIF_BX_DEPTH": str(c.get("depth_thorough" if tier == "thorough" else "depth_quick", c.get("depth", 4)))})
